@@ -12,6 +12,9 @@ import json
 import subprocess
 
 VERIF = os.path.dirname(os.path.dirname(os.path.abspath(__file__)))
+# RECHECK_REPO=<scratch worktree of /repo at HEAD>: apply the change there and let the checks import the library from it (VERIF_REPO),
+# so that /repo stays untouched while other runs read it
+TARGET = os.environ.get('RECHECK_REPO', '/repo')
 
 
 def sh(cmd, cwd=None, timeout=7200):
@@ -29,11 +32,11 @@ def main():
     name, checks = args[0], args[1:]
     d = os.path.join(VERIF, 'seeded', name)
     patch = os.path.join(d, 'patch.diff')
-    rc, out = sh('git status --porcelain --untracked-files=no', '/repo')
+    rc, out = sh('git status --porcelain --untracked-files=no', TARGET)
     if out.strip():
         print('/repo is not clean, refusing:', out)
         return 2
-    rc, out = sh('git apply %s || git apply -C1 %s' % (patch, patch), '/repo')
+    rc, out = sh('git apply %s || git apply -C1 %s' % (patch, patch), TARGET)
     if rc:
         print('patch does not apply:', out)
         return 2
@@ -41,12 +44,12 @@ def main():
     meta.setdefault('rechecks', {})
     try:
         for cid in checks:
-            rcc, outc = sh('./check %s --tier %s' % (cid, tier), VERIF)
+            rcc, outc = sh('VERIF_REPO=%s ./check %s --tier %s' % (TARGET, cid, tier), VERIF)
             keys = [l.strip()[4:] for l in outc.splitlines() if l.startswith('  key=')]
             meta['rechecks']['%s/%s' % (cid, tier)] = {'exit': rcc, 'new_keys': keys[:12], 'n_new_keys': len(keys)}
             print('  %s: check %s (%s): exit %d, %d new keys %s' % (name, cid, tier, rcc, len(keys), keys[:3]))
     finally:
-        sh('git checkout -- .', '/repo')
+        sh('git checkout -- .', TARGET)
     json.dump(meta, open(os.path.join(d, 'meta.json'), 'w'), indent=1)
     return 0
 
